@@ -4,6 +4,7 @@ import (
 	"bytes"
 	"fmt"
 	"os"
+	"sort"
 	"time"
 
 	"github.com/KevoDB/kevo/pkg/common/iterator"
@@ -41,7 +42,16 @@ func (e *DefaultCompactionExecutor) CompactFiles(task *CompactionTask) ([]string
 
 	// Add iterators from both levels
 	for level := 0; level <= task.TargetLevel; level++ {
-		for _, file := range task.InputFiles[level] {
+		// The merged iterator gives precedence to earlier sources, so within a
+		// level (level 0 files overlap) the newest file has to come first
+		files := append([]*SSTableInfo(nil), task.InputFiles[level]...)
+		sort.SliceStable(files, func(i, j int) bool {
+			if files[i].Sequence != files[j].Sequence {
+				return files[i].Sequence > files[j].Sequence
+			}
+			return files[i].Timestamp > files[j].Timestamp
+		})
+		for _, file := range files {
 			// We need an iterator that preserves delete markers
 			if file.Reader != nil {
 				iterators = append(iterators, file.Reader.NewIterator())
